@@ -102,13 +102,37 @@ def nasty_strings(rnd, n):
     return out
 
 
+def report_settings(prop, found):
+    seen = collections.Counter()
+    for p, r, evname, sc, evs in found:
+        seen[(p, r)] += 1
+        if seen[(p, r)] > 3:
+            continue
+        path = A.write_replay(prop, "%s-%s" % (sc.sid, r), {"property": p, "reason": r, "sid": sc.sid, "script": sc.lines, "meta": sc.meta, "events": evs})
+        print("VIOLATION property=%s replay=%s  (%s at %s in %s)" % (p, path, r, evname, sc.sid))
+    for (p, r), n in seen.items():
+        if n > 3:
+            print("  (+%d more histories with %s)" % (n - 3, r))
+    return len(found)
+
+
+def settings_only(prop, rp):
+    import apicheck
+    found, judged, n = apicheck.settings_stage("quick", random.Random(1), replay=rp)
+    nv = report_settings(prop, found)
+    print("%s replay: %d events judged, %d violations" % (prop, judged, nv))
+    return 1 if nv else 0
+
+
 def run(prop, tier, replay=None):
     t0 = time.time()
     A.build("san")
     A.build_harness("linerun", variant="san")
     rnd = random.Random(A.SEED * 991 + 9)
+    rp = json.load(open(replay)) if replay else None
+    if rp and "script" in rp:
+        return settings_only(prop, rp)
     if replay:
-        rp = json.load(open(replay))
         recs = [{k: v for k, v in rp["record"].items() if k not in ("fault", "runs")}]
     else:
         inputs = capacity_inputs()
@@ -155,15 +179,23 @@ def run(prop, tier, replay=None):
             print("  (+%d more inputs with %s)" % (n - 3, r))
     for r, n in drift.items():
         print("MODEL-DRIFT: %s (%d inputs): the hook-reported cursors differ from the capacity model although they stay inside their buffers" % (r, n))
+    # "under any option, chunk and mode setting": API histories with chunk sizes at every integer boundary, judged by spec/ApiTrace.tla
+    nset, nsetjudged = 0, 0
+    if not replay:
+        import apicheck
+        found, nsetjudged, nset = apicheck.settings_stage(tier, rnd)
+        nviol_set = report_settings(prop, found)
+        viol += [None] * nviol_set
     wall = time.time() - t0
     ncap = sum(1 for e in events if "ab" in e)
     cov = {"evaluations": judged, "distinct_nontrivial": len({e["text"] for e in events}),
-           "rule": "TLC checks InBounds on the capacity model of spec/AsmLexical.tla for every abstract input (kept characters x operands x token lengths) and emits them; each is rendered "
+           "rule": "(setting_histories: API histories with chunk sizes at every integer boundary - 0, 1, 2, around 2^31 and 2^32, multiples of 2^32, 2^62, 2^63, 2^64-1 - set and/or passed to counting calls and followed by further calls, judged event by event by spec/ApiTrace.tla; a fault is a C09 violation.) TLC checks InBounds on the capacity model of spec/AsmLexical.tla for every abstract input (kept characters x operands x token lengths) and emits them; each is rendered "
                    "to a concrete line and run (fresh instance, plain/fitting/counting, solo and inside a program) on the ASan+UBSan build with the cursor hooks installed; TLC compares the "
                    "reported cursors with the model and with the buffer capacities. Plus boundary strings, seeded random strings (character-level and grammar-level) and a class-covering sample of every TLC-enumerated corpus of well-formed and ill-formed lines (C01-C05, C10, C11). A case is one "
                    "input string; distinct_nontrivial counts distinct strings.",
            "samples": [{"text": e["text"][:120], "model": e.get("model"), "hooks": e["runs"][0]["hk"] if e["runs"] else None} for e in events[:2] + events[-2:]],
-           "capacity_inputs": ncap, "strings": sum(1 for e in events if e["id"].startswith("str-")), "corpus_lines": sum(1 for e in events if e["id"].startswith("val-")), "model_drift": dict(drift), "exhaustive": False}
+           "capacity_inputs": ncap, "strings": sum(1 for e in events if e["id"].startswith("str-")), "corpus_lines": sum(1 for e in events if e["id"].startswith("val-")), "model_drift": dict(drift), "exhaustive": False,
+           "setting_histories": nset, "setting_events_judged": nsetjudged}
     if not replay:
         A.write_evidence(prop, tier, "exploration", cov, wall, len(viol),
                          ["out-of-bounds reads by libc string functions are only seen by ASan (observation channel)", "the input space is infinite: boundary + random strings, not exhaustive",
